@@ -20,6 +20,7 @@ type target struct {
 	sig     *types.Signature
 	name    string
 	vtype   types.Type // static type of an unknown function value
+	targs   map[string]types.Type // type arguments inherited by a closure of a generic function
 }
 
 func (x *Exec) resolveCall(cfg *Config, f *Frame, common *ssa.CallCommon) (target, []Val) {
@@ -55,10 +56,10 @@ func (x *Exec) resolveCall(cfg *Config, f *Frame, common *ssa.CallCommon) (targe
 	val := x.get(f, common.Value)
 	switch c := val.(type) {
 	case *CloV:
-		return target{fn: c.Fn, binds: c.Binds, sig: sig, name: fullKey(c.Fn)}, args
+		return target{fn: c.Fn, binds: c.Binds, sig: sig, name: fullKey(c.Fn), targs: c.Targs}, args
 	case TV:
 		if known, ok := cfg.st.clos[c.T.S]; ok {
-			return target{fn: known.Fn, binds: known.Binds, sig: sig, name: fullKey(known.Fn)}, args
+			return target{fn: known.Fn, binds: known.Binds, sig: sig, name: fullKey(known.Fn), targs: known.Targs}, args
 		}
 		t := c.T
 		return target{unknown: &t, sig: sig, name: x.nameOf(common.Value), vtype: common.Value.Type()}, args
@@ -165,6 +166,9 @@ func (x *Exec) invoke(cfg *Config, f *Frame, tg target, args []Val, dest ssa.Val
 			if fn.Origin() == nil && len(fn.TypeArgs()) == 0 && f.targs != nil && fn.TypeParams() != nil && fn.TypeParams().Len() > 0 {
 				// generic body called from its instantiation wrapper: same type arguments
 				nf.targs = f.targs
+			}
+			if nf.targs == nil && tg.targs != nil {
+				nf.targs = tg.targs
 			}
 			if fn.Origin() != nil && len(fn.TypeArgs()) > 0 {
 				if tps := fn.Origin().TypeParams(); tps != nil && tps.Len() == len(fn.TypeArgs()) {
@@ -763,11 +767,52 @@ func (x *Exec) callOrderChecks(cfg *Config, tg target, pos token.Pos) {
 	env := x.entryEnv(cfg)
 	env.frame = cfg.frames[0]
 	env.old = cfg.old
+	// guardFor: is the function being called the one the option names? By name
+	// when the call is made under that name; otherwise by value (the function
+	// may be called inside an inlined helper, under the helper's parameter
+	// name): the obligation is then conditional on the values being equal.
+	guardFor := func(name string) (Term, bool) {
+		if name == tg.name {
+			return True, true
+		}
+		var t Term
+		ok := func() (ok bool) {
+			defer func() {
+				if r := recover(); r != nil {
+					if _, isU := r.(unsupportedErr); isU {
+						ok = false
+						return
+					}
+					panic(r)
+				}
+			}()
+			e, err := ParseExpr(name)
+			if err != nil {
+				return false
+			}
+			sv := x.spec(env, e)
+			if sv.Ty != nil && tg.vtype != nil && !types.Identical(sv.Ty, tg.vtype) {
+				return false // a value of another type: not the function the option names
+			}
+			t = sv.T
+			return true
+		}()
+		if !ok || t.Sort != tg.unknown.Sort {
+			return Term{}, false
+		}
+		return Eq(*tg.unknown, t), true
+	}
+	guard := True
 	each := func(opt string, fn func(fs []string)) {
 		for _, part := range strings.Split(x.c.Options[opt], ";") {
 			fs := strings.Fields(part)
-			if len(fs) > 0 && fs[0] == tg.name {
+			if len(fs) == 0 {
+				continue
+			}
+			if g, ok := guardFor(fs[0]); ok {
+				guard = g
 				fn(fs)
+				guard = True
 			}
 		}
 	}
@@ -778,28 +823,39 @@ func (x *Exec) callOrderChecks(cfg *Config, tg target, pos token.Pos) {
 		}
 		return e
 	}
+	// callsNowOld: the call counter of the function value named by src, now and
+	// at entry (the name is resolved NOW: it may be a local assigned after entry)
+	callsNowOld := func(src string) (Term, Term) {
+		fv := x.spec(env, parse(src))
+		name := callsArrName(sigOfType(fv.Ty))
+		cur := x.heapGet(env.st, name, SArr(SInt, x.idxSort()))
+		old := x.heapGet(env.old, name, SArr(SInt, x.idxSort()))
+		return Select(cur, fv.T), Select(old, fv.T)
+	}
 	each("calls-under", func(fs []string) {
 		if len(fs) < 2 {
 			return
 		}
-		x.oblige(cfg, "call-under-lock", tg.name+" called while held("+fs[1]+")", x.specBool(env, parse("held("+fs[1]+")")), nil, pos)
+		x.oblige(cfg, "call-under-lock", fs[0]+" called while held("+fs[1]+")", Implies(guard, x.specBool(env, parse("held("+fs[1]+")"))), nil, pos)
 	})
 	each("calls-after", func(fs []string) {
 		if len(fs) < 2 {
 			return
 		}
-		x.oblige(cfg, "call-order", tg.name+" called after "+fs[1], x.specBool(env, parse("calls("+fs[1]+") > old(calls("+fs[1]+"))")), nil, pos)
+		x.oblige(cfg, "call-order", fs[0]+" called after "+fs[1], func() Term { c, o := callsNowOld(fs[1]); return Implies(guard, Gt(c, o)) }(), nil, pos)
 	})
 	// option calls-when f <expr> [; ...]: every call of f is made in a state satisfying expr
 	for _, part := range strings.Split(x.c.Options["calls-when"], ";") {
 		part = strings.TrimSpace(part)
 		fs := strings.SplitN(part, " ", 2)
-		if len(fs) == 2 && fs[0] == tg.name {
-			x.oblige(cfg, "call-when", tg.name+" called when "+fs[1], x.specBool(env, parse(fs[1])), nil, pos)
+		if len(fs) == 2 {
+			if g, ok := guardFor(fs[0]); ok {
+				x.oblige(cfg, "call-when", fs[0]+" called when "+fs[1], Implies(g, x.specBool(env, parse(fs[1]))), nil, pos)
+			}
 		}
 	}
 	each("calls-once", func(fs []string) {
-		x.oblige(cfg, "call-once", tg.name+" not called before in this invocation", x.specBool(env, parse("calls("+fs[0]+") == old(calls("+fs[0]+"))")), nil, pos)
+		x.oblige(cfg, "call-once", fs[0]+" not called before in this invocation", func() Term { c, o := callsNowOld(fs[0]); return Implies(guard, Eq(c, o)) }(), nil, pos)
 	})
 }
 
